@@ -540,10 +540,19 @@ func (db *DB) search(o Object, field, operator string, value interface{}, constr
 }
 
 func (db *DB) flush(o Object) (err error) {
+	var pending Object
+	var ok bool
+
+	// what must be written is the pending write accepted for this object,
+	// caller's object may be different. If no write is pending for it,
+	// everything accepted is on disk already
+	if pending, ok = db.asyncw.get(o); !ok {
+		return
+	}
 
 	// an object which could not be written stays in the list
 	// of objects to save, otherwise its pending write is lost
-	if err = db.writeObject(o); err != nil {
+	if err = db.writeObject(pending); err != nil {
 		return
 	}
 
